@@ -304,6 +304,21 @@ def assume(cond, truth, env):
                         return None
                     e.ret[kk] = ('eq', lo) if lo == hi else ('rng', (lo, hi))
                 return e
+            # the unsigned range idiom `(size_t)v - K1 < K`: the subtraction wraps for v < K1, so the comparison holds exactly for
+            # K1 <= v < K1 + K (the false arm is a union of two ranges and is not represented)
+            if x.get('k') == 'bin' and x.get('op') == '-' and x.get('s') == 0 and o in ('<', '<=') and K >= 0:
+                K1 = const_int(x['r'])
+                inner = strip(x['l'])
+                a1 = ap(inner)
+                if K1 is not None and K1 >= 0 and a1 is not None and not inner.get('p'):
+                    lo, hi, ex = env.intf(a1)
+                    nlo = max(lo, K1)
+                    nhi = min(hi, K1 + K - (1 if o == '<' else 0))
+                    if nlo > nhi:
+                        return None
+                    e = env.copy()
+                    e.set_int(a1, (nlo, nhi, frozenset(v for v in ex if nlo <= v <= nhi)))
+                    return e
             a = ap(x)
             if a is None:
                 continue
